@@ -139,10 +139,10 @@ class RString:
 
 
 class Closure:
-    __slots__ = ('name', 'caps', 'env')
+    __slots__ = ('name', 'caps', 'env', 'body')
 
-    def __init__(self, name, caps, env=None):
-        self.name, self.caps, self.env = name, caps, env
+    def __init__(self, name, caps, env=None, body=None):
+        self.name, self.caps, self.env, self.body = name, caps, env, body
 
     def __repr__(self):
         return f'{self.name}'
